@@ -236,12 +236,17 @@ def explore(p, thorough, section):
     if kind == "misc":
         p.sample("stats", {"kernels": ["rolling_sum", "lroo", "mean_grp", "gammastd_grp", "autocorr", "autocorr_tyx", "_mann_kendall_trend_gu(_nd)", "mann_kendall_trend_yxt", "gammastd_yxt"]})
     p.note("boundscheck_env", os.environ.get("NUMBA_BOUNDSCHECK"))
-    # self-test of the instrumentation: a deliberately out-of-contract call must raise IndexError
+    # self-test of the instrumentation with a probe of our own (independent of the library's source)
+    import numba
+
+    @numba.njit
+    def _probe(a, i):
+        return a[i]
     try:
-        ws2d(np.array([1.0]), 1.0, np.array([1.0]))
-        p.note("boundscheck_selftest", "FAILED: ws2d on a length-1 series did not raise IndexError")
+        _probe(np.zeros(3), 5)
+        p.note("boundscheck_selftest", "FAILED: an out-of-bounds read in nopython code did not raise IndexError")
     except IndexError:
-        p.note("boundscheck_selftest", "ok (out-of-contract length-1 series raises IndexError)")
+        p.note("boundscheck_selftest", "ok (out-of-bounds read in a probe kernel raises IndexError)")
 
 
 def _lroo_out():
